@@ -77,6 +77,13 @@ def run(case):
                 out["rec_s"] = recovered(fp, Ts, t)
             except RuntimeError as e:
                 out["solve_error"] = str(e)[:100]
+        if "t2" in case and "T" in case:
+            # the same object asked again at another time (as the coupled solver does step after step)
+            t2 = fl(case["t2"])
+            fp.t = t2
+            R2, _ = fp.RJ(T)
+            out["R2"] = hexl(R2)
+            out["rec2"] = recovered(fp, T, t2)
     except Exception as e:
         out["error"] = "%s: %s" % (type(e).__name__, str(e)[:200])
     return out
